@@ -163,6 +163,12 @@ func init() {
 			fr.i.mapOrderMax = int(asInt64(a[0]))
 			return nil
 		},
+		// verifMapOrderBig(on): while on, a range over a map larger than the all-orders bound is
+		// explored in two orders (insertion order and its reverse) instead of one
+		"verifMapOrderBig": func(fr *frame, a []value) value {
+			fr.i.mapOrderBig = a[0].(bool)
+			return nil
+		},
 		"verifCatch": func(fr *frame, a []value) (res value) {
 			i := fr.i
 			defer func() {
